@@ -238,6 +238,7 @@ def local_instant(p):
 def time_normal(p):
     """0<=h<24, 0<=m,s<60 with the integrality the time form implies."""
     ok = 0 <= p._hour_of_day and p._hour_of_day < 24
+    ok = ok and 0 <= sod(p) and sod(p) < 86400
     if p._minute_of_hour is not None:
         ok = ok and isint(p._hour_of_day)
         ok = ok and 0 <= p._minute_of_hour and p._minute_of_hour < 60
@@ -345,3 +346,10 @@ def rough_len(d):
 def fdiv(x, k):
     """floor(x / k) as an integer-valued number (native: math.floor)."""
     return (x // k)
+
+
+def date_key(t):
+    """Day number of a (year, month, day) or (year, day-of-year) tuple."""
+    if len(t) == 3:
+        return cal_abs(t[0], t[1], t[2])
+    return dby(t[0]) + t[1]
